@@ -65,8 +65,12 @@ func genProgBody(rng *rand.Rand, depth int) []progNode {
 			if rng.Intn(2) == 0 {
 				out[len(out)-1].Method = "GET"
 			}
-		case k < 11 && depth < 4:
-			out = append(out, progNode{Op: "group", Path: c11GroupPaths[rng.Intn(len(c11GroupPaths))], NH: rng.Intn(3), Spare: rng.Intn(2) * 2, Children: genProgBody(rng, depth+1)})
+		case k < 11 && depth < 4, k < 11 && depth < 8 && rng.Intn(3) == 0:
+			nh := rng.Intn(3)
+			if rng.Intn(25) == 0 {
+				nh = 3 + rng.Intn(7) // handler lists that cross slice-capacity boundaries when concatenated
+			}
+			out = append(out, progNode{Op: "group", Path: c11GroupPaths[rng.Intn(len(c11GroupPaths))], NH: nh, Spare: rng.Intn(2) * 2, Children: genProgBody(rng, depth+1)})
 		case k < 14:
 			nm := 1 + rng.Intn(3)
 			pn := progNode{Op: "combo", Path: c11Paths[rng.Intn(len(c11Paths))], NH: rng.Intn(3), Spare: rng.Intn(2) * 3}
